@@ -151,12 +151,14 @@ fn functional_vs_eos(m: &mut Monitor, cfg: &Config) {
                 // mixtures whose association is solved iteratively on one side (absolute tolerance
                 // 1e-10 in the site fractions): at epsilon_AB / kT > 15 the unbonded fractions are
                 // themselves tiny and the second derivatives agree only to ~1e-7
-                if ["pcsaft-solvating", "pcsaft-crossassoc"].contains(&sc.mc.family.as_str()) {
+                if sc.mc.family == "pcsaft-crossassoc" {
                     let eps_max = sc.mc.spec.pure.iter().filter_map(|r| r["model_record"].get("epsilon_k_ab").and_then(|v| v.as_f64())).fold(0.0, f64::max);
                     if eps_max / ss.t > 15.0 {
                         tol *= 1e3;
                     }
                 }
+                // derivatives with respect to a trace component lose digits like 1/x
+                tol *= (1e-4 / ss.x.iter().cloned().fold(1.0, f64::min)).max(1.0);
                 let polar_gc = sc.mc.spec.kind == Kind::GcPcSaft
                     && sc.mc.spec.pure.iter().any(|p| {
                         p["segments"].as_array().map_or(false, |a| {
@@ -333,7 +335,7 @@ fn epcsaft_vs_pcsaft(m: &mut Monitor, cfg: &Config) {
             // the two crates carry separate copies of the association code; with two associating
             // components the site fractions come from an iteration with tolerance 1e-10, whose
             // last-bit differences are amplified to ~1e-12 of the energy scale
-            let tol = if sc.mc.family.contains("assoc") { 1e-10 } else { 1e-12 };
+            let tol = if sc.mc.family.contains("assoc") { 1e-10 } else { 1e-11 };
             compare(m, "epcsaft(no ions)=pcsaft", &format!("epcsaft=pcsaft|{}", sc.mc.family), case, &a, &b, sa, tol, &info);
         }
     });
@@ -443,7 +445,8 @@ fn association_paths(m: &mut Monitor, cfg: &Config) {
         let info = json!({"model": spec, "state": ss.json()});
         let case = 600_000_000 + i;
         let sig = "assoc analytic=newton";
-        let tol = 1e-7;
+        // trace donors / acceptors: the Newton path resolves their site fractions to 1e-10 absolute
+        let tol = 1e-7 * (1e-4 / ss.x.iter().cloned().fold(1.0, f64::min)).max(1.0);
         // association energy relative to the residual energy of the state (A/kT units)
         let afloor = 1e-3 * energy_scale(&st) / ss.t;
         let mut chk = |what: &str, a: f64, b: f64| {
